@@ -103,7 +103,7 @@ def run(ctx) -> None:
 
     closures = {n.name: n for n in ast.walk(gf.node) if isinstance(n, ast.FunctionDef) and n is not gf.node}
     rec_names = {n.target.id for n in ast.walk(gf.node) if isinstance(n, ast.For) and isinstance(n.target, ast.Name) and ast.unparse(n.iter) == IN}
-    rec_cookie = {f"{r}.cookie" for r in rec_names}
+    rec_cookie = {f"{r}.cookie" for r in rec_names} | {"REC.cookie"}
 
     def is_rec_cookie(txt: str) -> bool:
         if txt in rec_cookie:
@@ -221,6 +221,22 @@ def run(ctx) -> None:
                                 bad, ok, msg = [], True, ""
                             else:
                                 ok, msg = False, "the in-batch search `next(... if P(x))` uses a predicate that is not the partner predicate"
+                        elif first == f"{OUT}[{key}]" and any(t is True and a.endswith(f"({OUT}[{key}])") for a, t in c.items()):
+                            # an index found by any other search (e.g. a counting while loop): what matters is that, on this path,
+                            # the element at that index was tested positive with the partner predicate and is replaced at that index
+                            atom = next(a for a, t in c.items() if t is True and a.endswith(f"({OUT}[{key}])"))
+                            ftxt = atom[: -len(f"({OUT}[{key}])")]
+                            try:
+                                fexpr = ast.parse(ftxt, mode="eval").body
+                            except SyntaxError:
+                                fexpr = None
+                            fnode = as_funcdef(fexpr) if fexpr is not None else None
+                            if fnode is None and isinstance(fexpr, ast.Attribute):
+                                fnode = as_funcdef(ast.Lambda(ast.arguments(posonlyargs=[], args=[ast.arg("x__")], kwonlyargs=[], kw_defaults=[], defaults=[]), ast.Call(fexpr, [ast.Name("x__", ast.Load())], [])))
+                            if fnode is not None and predicate_ok(fnode, f"of the in-batch search `{ftxt[:50]}`", loc):
+                                bad, ok, msg = [], True, ""
+                            else:
+                                ok, msg = False, f"the element replaced at `{key}` was tested with `{ftxt[:60]}`, which is not the partner predicate"
                         elif not (first == "OLD" and key == "IDX"):
                             ok, msg = False, f"in-batch partner {first} is not replaced in place at its own index ({e.extra.get('key')}): it would also be delivered alone"
                     else:
